@@ -8,6 +8,7 @@ from ..runner import Outcome
 LEVEL = "proof"
 ASSUMPTIONS = ["edits are the mapping operations set / add / delete (all addressing forms); mutating a stored column object's fields behind the record's back is outside the property"]
 NAMES = ["a", "b", "c"]
+IMPL_ONLY = ("restore", "copy", "popitem", "clear", "huge")     # operations the model has no counterpart of (object identity, resource limits)
 
 
 def gen_op(rng, names=NAMES, idxs=(0, 1, 2, 3, 5, -1, None, None, None)):
@@ -255,13 +256,35 @@ def run_history(ops, start=None):
     steps = []
     problems = [(-1, b) for b in coherence(rec)]
     initial = observe(rec, oids)
+    recs = [rec]          # the record and the shallow copies made of it so far (copy.copy shares what the class shares)
     for n, o in enumerate(ops):
         if problems:
             break
-        before = observe(rec, oids)
+        rec = recs[o.get("on", 0) % len(recs)]
+        before = [observe(r, oids) for r in recs]
         exc = None
         try:
-            if o["k"] == "restore":
+            if o["k"] == "copy":
+                import copy
+                recs.append(copy.copy(rec))
+                before.append(observe(recs[-1], oids))
+            elif o["k"] == "popitem":
+                rec.popitem()
+            elif o["k"] == "clear":
+                rec.clear()
+            elif o["k"] == "huge":
+                # an index no list can be padded up to: the operation must fail and leave the record as it was
+                from maflib.column import MafColumnRecord
+                c = MafColumnRecord(o["name"], "v", None if o["via"] == "int" else o["index"])
+                keep.append(c)
+                oids[id(c)] = offset + n
+                if o["via"] == "add":
+                    rec.add(c)
+                elif o["via"] == "int":
+                    rec[o["index"]] = c
+                else:
+                    rec[o["name"]] = c
+            elif o["k"] == "restore":
                 # store again a column OBJECT that the record already holds (col = rec[x]; col.value = ...; rec[x] = col)
                 live = [c for c in rec._MafRecord__columns_list if c is not None]
                 if live:
@@ -289,12 +312,15 @@ def run_history(ops, start=None):
                 del rec[py_key(o["key"], keep)]
         except Exception as e:  # noqa
             exc = exc_name(e)
-        after = observe(rec, oids)
-        steps.append({"exc": exc, "obs": after})
+        after = [observe(r, oids) for r in recs]
+        steps.append({"exc": exc, "obs": after[o.get("on", 0) % len(recs)]})
         if exc is not None and after != before:
             problems.append((n, "failed operation (%s) changed the record" % exc))
-        for b in coherence(rec):
-            problems.append((n, b))
+        if o["k"] == "huge" and exc is None:
+            problems.append((n, "a column index no list can be padded up to (%d) was accepted" % o["index"]))
+        for k, r in enumerate(recs):
+            for b in coherence(r):
+                problems.append((n, b if k == 0 else "shallow copy %d of the record: %s" % (k, b)))
     return steps, problems, initial
 
 
@@ -379,15 +405,28 @@ def run(ctx):
     rng_r = ctx.rng("hist", "restore")
     for _ in range(ctx.scale(400, 5000)):
         h = []
+        flavour = rng_r.choice(["restore", "restore", "mapping", "copy", "huge"])
         for _k in range(rng_r.randrange(2, 9)):
-            if rng_r.random() < 0.35:
+            x = rng_r.random()
+            if flavour == "restore" and x < 0.35:
                 h.append({"k": "restore", "via": rng_r.choice(["name", "int", "col", "add"]), "slot": rng_r.randrange(6), "edit": rng_r.random() < 0.5})
+            elif flavour == "mapping" and x < 0.3:
+                # the deletions the mapping interface adds on top of `del`: popitem() and clear()
+                h.append({"k": rng_r.choice(["popitem", "popitem", "clear"])})
+            elif flavour == "copy" and x < 0.2:
+                h.append({"k": "copy", "on": rng_r.randrange(3)})
+            elif flavour == "huge" and x < 0.25:
+                h.append({"k": "huge", "name": rng_r.choice(NAMES + ["z"]), "via": rng_r.choice(["add", "int", "name"]),
+                          "index": rng_r.choice([2 ** 63, 2 ** 63 - 1, 2 ** 64, 10 ** 30])})
             else:
-                h.append(gen_op(rng_r))
+                o = dict(gen_op(rng_r))
+                if flavour == "copy":
+                    o["on"] = rng_r.randrange(3)
+                h.append(o)
         out.evaluations += 1
         steps, failures, _initial = eval_history(h, None)
         out.failures += failures
-        out.distribution["restore-histories"] += 1
+        out.distribution["implementation-only histories (%s)" % flavour] += 1
         if sum(1 for st in steps if st["exc"] is None) >= 2:
             out.nontrivial.add(repr(h))
     reqs = [{"op": "rec.edit", "ops": prefix_ops(start) + h} for h, start in cases]
@@ -440,12 +479,20 @@ def show_op(o):
     def key(k):
         t = k["t"]
         return repr(k["v"]) if t in ("name", "int") else show_col(dict(k, value=None), index=False) if t == "col" else "None" if t == "none" else "3.5"
+    on = " (on shallow copy %d)" % o["on"] if o.get("on") else ""
     if o["k"] == "del":
-        return "del rec[%s]" % key(o["key"])
+        return "del rec[%s]%s" % (key(o["key"]), on)
+    if o["k"] == "copy":
+        return "copy.copy(rec)   -> one more record to edit and to keep coherent"
+    if o["k"] in ("popitem", "clear"):
+        return "rec.%s()%s" % (o["k"], on)
+    if o["k"] == "huge":
+        return {"add": "rec.add(<%s at index %d>)", "int": "rec[%d] = <%s>", "name": "rec[%r] = <%s at index %d>"}[o["via"]] % (
+            (o["name"], o["index"]) if o["via"] == "add" else (o["index"], o["name"]) if o["via"] == "int" else (o["name"], o["name"], o["index"]))
     if o["k"] == "restore":
         return "c = the %dth stored column object%s; store it again via %s" % (o["slot"], "; c.value = 'edited'" if o.get("edit") else "", o["via"])
     col = show_col(o["col"])
-    return "rec.add(%s)" % col if o["k"] == "add" else "rec[%s] = %s" % (key(o["key"]), col)
+    return ("rec.add(%s)" % col if o["k"] == "add" else "rec[%s] = %s" % (key(o["key"]), col)) + on
 
 
 def show_obs(obs):
@@ -461,7 +508,7 @@ def replay_case(ctx, failure):
     start = failure.get("start")
     steps, failures, initial = eval_history(h, start)
     msteps = None
-    if getattr(ctx, "driver_ok", True) and ctx.driver.available() and not any(o["k"] == "restore" for o in h):
+    if getattr(ctx, "driver_ok", True) and ctx.driver.available() and not any(o["k"] in IMPL_ONLY for o in h):
         msteps = ctx.driver.run([{"op": "rec.edit", "ops": prefix_ops(start) + h}])[0]["steps"][len(prefix_ops(start)):]
     if start:
         print("replay C15: MafRecord.from_line(%r, %s) edited by %d operation(s)" % (
